@@ -293,6 +293,11 @@ inductive Op
   | checkoutPath (head : Sha)
   | pullFF (old new : Sha) (wl : Bool)
   | pullRebase (r : RebaseFacts)
+  /-- `git-ai checkpoint` run between two git commands (an agent's pre/post-edit checkpoint, a manual one);
+      `rebaseDir`: a rebase is stopped. No git command: git fires nothing and the wrapper is not involved; the
+      attribution it records is the same code in both modes and not part of the comparison. What matters here:
+      `ensure_repo_level_hooks_for_checkpoint` puts back hook entry points left masked (`heal`). -/
+  | agentCheckpoint (rebaseDir : Bool)
   deriving DecidableEq, Repr
 
 /-! ## `fires` — the git kernel table (githooks(5); validated on git 2.39.5 by the tracing twin) -/
@@ -324,14 +329,17 @@ def lastNew (head : Sha) (ps : List (Sha × Sha)) : Sha :=
 
 /-- start of a rebase: pre-rebase, the checkout of `onto`, and (once `.git/rebase-merge` exists) whatever the
     picks fire -/
-def rebaseStartEvs (r : RebaseFacts) (pull : Bool) : List HookEv :=
+def rebaseStartEvs (r : RebaseFacts) (pull : Bool) (todoEmpty : Bool) : List HookEv :=
   let act : Action := if pull then .pull else .unset
   let cIn : Ctx := { rebaseDir := true, action := act }
   [.preRebase (some r.upstreamArg) r.branchArg { head := some r.orig, action := act },
    .refTx .committed [⟨some r.orig, some r.onto, .head⟩] { cIn with head := some r.onto },
    .postCheckout (some r.orig) (some r.onto) true
-      { cIn with head := some r.onto, wlPresent := r.wlAtOrig, todoEmpty := r.pairs.isEmpty }]
+      { cIn with head := some r.onto, wlPresent := r.wlAtOrig, todoEmpty := todoEmpty }]
   ++ r.inner.map (innerEv cIn)
+
+/-- git wrote an empty todo (every commit dropped as already upstream): nothing is picked, nothing rewritten -/
+def RebaseFacts.todoEmpty (r : RebaseFacts) : Bool := r.pairs.isEmpty && r.inner.isEmpty
 
 /-- end of a rebase: the branch ref moves, then post-rewrite (the rebase directory still exists) -/
 def rebaseEndEvs (r : RebaseFacts) (pull : Bool) : List HookEv :=
@@ -354,8 +362,9 @@ def fires : Op → List HookEv
     [.preCommit c, .prepareCommitMsg c, .commitMsg c,
      .refTx .committed [⟨some o, some n, .head⟩, ⟨some o, some n, .branch⟩] c', .postCommit c',
      .postRewriteAmend [(o, n)] c']
-  | .rebase r => rebaseStartEvs r false ++ rebaseEndEvs r false
-  | .rebaseStop r => rebaseStartEvs r false
+  | .rebase r => rebaseStartEvs r false r.todoEmpty ++ rebaseEndEvs r false
+  -- a rebase that stops has at least the commit it stops on in its todo
+  | .rebaseStop r => rebaseStartEvs r false false
   | .rebaseContinue r =>
     r.inner.map (innerEv { rebaseDir := true }) ++ rebaseEndEvs r false
   | .rebaseAbort r =>
@@ -399,7 +408,8 @@ def fires : Op → List HookEv
   | .pullFF o n wl =>
     [.refTx .committed [⟨some o, some n, .head⟩, ⟨some o, some n, .branch⟩] { head := some n, action := .pull },
      .postMerge false { head := some n, prev := some o, action := .pull, ffPull := true, wlPresent := wl }]
-  | .pullRebase r => rebaseStartEvs r true ++ rebaseEndEvs r true
+  | .pullRebase r => rebaseStartEvs r true r.todoEmpty ++ rebaseEndEvs r true
+  | .agentCheckpoint _ => []
 
 /-! ## Hooks mode (git_hook_handlers.rs) -/
 
@@ -593,8 +603,11 @@ def managedArm (s : Side) (j : List JEv) (backward : Bool) : HookEv → Side × 
     let pullRebaseCheckout := c.action == .pull && c.rebaseDir
     let e1 := if pullRebaseCheckout then [] else managedPostCheckout old c
     let e2 := if old.isNone && new.isSome then [Eff.fetchNotes] else []
-    let (s3, e3) := if pullRebaseCheckout && c.todoEmpty then
-        (let (x, y) := pullPostRewrite s c; ({ x with mask := false }, y)) else (s, [])
+    -- the empty-todo fallback (every commit dropped as already upstream: no post-rewrite will come);
+    -- `noopRestorePullOnly`: the extracted guard still mentions `is_pull_reflog_action()`
+    let fallback := c.rebaseDir && c.todoEmpty && (!HookTables.noopRestorePullOnly || c.action == .pull)
+    let (s3, e3) := if fallback then
+        (let (x, y) := pullPostRewrite s c; ({ x with mask := x.mask && !HookTables.noopRestoreForces }, y)) else (s, [])
     let s4 := if c.action == .rebaseAbort then { s3 with mask := false } else s3
     let s5 := if c.action == .cherryPickAbort then { s4 with cpState := none, cpBatch := none } else s4
     (s5, e1 ++ e2 ++ e3)
@@ -656,8 +669,20 @@ def Op.backward : Op → Bool
   | .reset _ _ _ b _ _ => b
   | _ => false
 
-/-- hooks mode: plain git runs `op`, the managed hooks see what `fires` says -/
-def hooks (st : St) (op : Op) : St × List Eff := invokeAll {} op.backward st (fires op)
+/-- `ensure_repo_level_hooks_for_checkpoint` as far as the side state goes: `maybe_restore_stale_rebase_hooks`
+    (when the extracted entry point calls it) restores the masked entry points unless a rebase is in progress -/
+def checkpointRestores : Bool :=
+  HookTables.checkpointEntryCalls.contains
+    ['m','a','y','b','e','_','r','e','s','t','o','r','e','_','s','t','a','l','e','_','r','e','b','a','s','e','_','h','o','o','k','s']
+
+def Op.heal (s : Side) : Op → Side
+  | .agentCheckpoint rb => if checkpointRestores && s.mask && !rb then { s with mask := false } else s
+  | _ => s
+
+/-- hooks mode: plain git runs `op`, the managed hooks see what `fires` says; a checkpoint is git-ai's own entry point -/
+def hooks (st : St) (op : Op) : St × List Eff :=
+  let r := invokeAll {} op.backward st (fires op)
+  ({ r.1 with side := op.heal r.1.side }, r.2)
 
 /-! ## Wrapper mode (git_handlers.rs + commands/hooks/*.rs) -/
 
@@ -729,6 +754,7 @@ def wrapperEffs (j : List JEv) : Op → List Eff
     (if r.orig = r.newHead then []
      else if r.chain.isEmpty || r.newChain.isEmpty then []
      else [.handle (.rebaseComplete r.orig r.newHead false r.chain r.newChain)])
+  | .agentCheckpoint _ => []
 
 /-- wrapper mode: pre-hooks, git (its child carries the skip variable: no managed hook does anything), post-hooks -/
 def wrapper (st : St) (op : Op) : St × List Eff :=
@@ -828,8 +854,14 @@ def RebaseFacts.wf (r : RebaseFacts) : Bool :=
 def RebaseFacts.aligned (r : RebaseFacts) : Bool :=
   r.pairs.map (·.1) == r.chain && r.pairs.map (·.2) == r.newChain
 
+/-- every commit of the branch was dropped as already upstream: nothing rewritten (git runs no post-rewrite,
+    no pick), the branch ends on the new base -/
+def RebaseFacts.noop (r : RebaseFacts) : Bool :=
+  r.todoEmpty && r.newChain.isEmpty && r.newHead == r.onto && r.orig != r.newHead
+
 def Op.wf : Op → Bool
-  | .rebase r | .rebaseContinue r | .pullRebase r => r.wf
+  | .rebase r | .pullRebase r => r.wf || r.noop
+  | .rebaseContinue r => r.wf
   | .cherryPick h ps => !ps.isEmpty && lastNew h ps != h && ps.all (fun p => p.1 != p.2)
   | .cherryPickContinue h _ done res rest _ =>
     lastNew h (done ++ res :: rest) != h && (done ++ res :: rest).all (fun p => p.1 != p.2)
@@ -840,8 +872,10 @@ def Op.wf : Op → Bool
 /-- the facts under which both modes hand the shared handlers the same thing -/
 def Op.agree : Op → Bool
   | .commit .. | .commitFails .. | .amend .. | .mergeSquash .. | .pullFF .. | .cherryPickNoCommit .. => true
-  | .rebase r | .rebaseContinue r => r.aligned && !r.wlAtOrig
+  | .rebase r => (r.aligned || r.noop) && !r.wlAtOrig
+  | .rebaseContinue r => r.aligned && !r.wlAtOrig
   | .pullRebase r | .rebaseStop r => !r.wlAtOrig
+  | .agentCheckpoint _ => true
   | .rebaseAbort _ => true
   | .cherryPick _ ps => ps.length == 1
   | .cherryPickStop _ _ done => done.isEmpty
@@ -866,6 +900,9 @@ def journalOk (j : List JEv) : Op → Bool
     everything else empty -/
 def sideOk (s : Side) : Op → Bool
   | .rebaseContinue _ | .rebaseAbort _ => s == { mask := true }
+  -- a checkpoint while a rebase is stopped leaves the mask alone; after `rebase --abort` it lifts it
+  | .agentCheckpoint true => s == { mask := true }
+  | .agentCheckpoint false => s == {} || s == { mask := true }
   | _ => s == {}
 
 /-- operations that leave a rebase stopped / leave it by abort -/
